@@ -78,7 +78,8 @@ TYPES = [
     record("DefOuter", [F("inner", R("DefPrims")), F("n", P("int32"), default="3"), F("oinner", R("DefPrims"), optional=True)]),
     # annotated field names that are STRING prefixes (not path prefixes) of one another
     record("Pfx", [F("name", P("string")), F("created", P("int64"), optional=True), F("createdBy", P("string"), optional=True),
-                   F("address", R("Leaf"), optional=True), F("addressLine2", P("string"), optional=True)]),
+                   F("address", R("Leaf"), optional=True), F("addressLine2", P("string"), optional=True),
+                   F("zAudit", P("string"), optional=True)]),     # read-only and the LAST field an encoder writes
     record("KeyPart", [F("id", P("string")), F("n", P("int64"))]),
     record("KeyParams", [F("p", P("string"))]),
     named("complexKey", "CK", Key={"name": "KeyPart", "namespace": NS}, Params={"name": "KeyParams", "namespace": NS}),
@@ -131,7 +132,7 @@ RESOURCES = [
     resource([seg("collRO", "collROId", P("int64"))], R("Ent"), rest(["get", "create", "update", "partial_update", "batch_partial_update"]), ro=["nested"]),
     resource([seg("collCO", "collCOId", P("int64"))], R("Ent"), rest(["get", "create", "update", "partial_update", "batch_update"]), co=["created"]),
     resource([seg("collPfx", "collPfxId", P("int64"))], R("Pfx"), rest(["get", "create", "update", "partial_update", "batch_update"]),
-             ro=["created", "address"], co=["createdBy", "addressLine2"]),
+             ro=["created", "address", "zAudit"], co=["createdBy", "addressLine2"]),
     resource([seg("collCK", "collCKId", R("CK"))], R("Leaf"),
              rest(["get", "create", "batch_get", "batch_update", "batch_partial_update", "batch_delete"])),
     # declared query parameters on rest methods: names sorting before and after the reserved `ids`, and only before it
